@@ -19,7 +19,7 @@ from ..model import AnalysisError
 from ..tables import routing as T
 from ..tables import rewards as TR
 
-FLOOR = 114
+FLOOR = 133
 EXPLANATION = (
     "Static analysis of all _get_reward implementations (21 env classes, every Python-level mode) and of the step-side "
     "accumulators they read: the return value's polynomial normal form must consist of exactly the reference objective's "
@@ -1067,10 +1067,14 @@ def exact_distances(ctx: Ctx, rid: str, methods):
     DIFFERENCES.  torch.cdist in its default compute mode switches to the matrix-multiplication formulation
     |x|^2 + |y|^2 - 2 x.y for more than 25 points: away from the origin the squares cancel and the result is off by the typical
     neighbour spacing (a selected facility at a non-zero distance from itself, a tour length that differs from the recomputed
-    one).  Every function of rl4co/utils/ops.py and every listed method (own body, env class resolved through the MRO) is
+    one).  Every distance helper of rl4co/utils/ops.py (name contains dist / tour / length) and every listed method (own body, env class resolved through the MRO) is
     scanned; a cdist call must pass compute_mode='donot_use_mm_for_euclid_dist'."""
     import ast
-    fis = list(ctx.repo.module_by_path("rl4co/utils/ops.py").functions.values())
+    import re
+    # the distance helpers proper (a neighbour-graph helper that only RANKS points by distance is not an objective)
+    fis = [f for n_, f in ctx.repo.module_by_path("rl4co/utils/ops.py").functions.items() if re.search(r"dist|tour|length", n_)]
+    if len(fis) < 3:
+        raise AnalysisError(f"distance helpers of rl4co/utils/ops.py lost: {[f.qualname for f in fis]}")
     for path, qn in methods:
         cname, m = qn.split(".", 1)
         ci = ctx.repo.get_class(path, cname)
